@@ -57,6 +57,7 @@ func (r *recorder) add(kind, s string, n int) {
 
 type conn struct {
 	rec    *recorder
+	sendMu sync.RWMutex // held (R) by the harness while it delivers a message, (W) by Close
 	mu     sync.Mutex
 	inCh   chan *nats.Msg
 	closed bool
@@ -85,9 +86,17 @@ func (c *conn) ChanQueueSubscribe(subject, queue string, ch chan *nats.Msg) (*na
 }
 func (c *conn) Close() {
 	c.rec.add("conn-close", "", 0)
+	c.sendMu.Lock()
 	c.mu.Lock()
 	c.closed = true
 	c.mu.Unlock()
+	c.sendMu.Unlock()
+}
+
+func (c *conn) isClosed() bool {
+	c.mu.Lock()
+	defer c.mu.Unlock()
+	return c.closed
 }
 
 // ---------- scenario ----------
@@ -128,7 +137,8 @@ type runner struct {
 	occupancy sync.Map // group -> *int32
 	impl      []ImplViolation
 	implMu    sync.Mutex
-	gateFn    atomic.Value // func(pt string)
+	gateFn    atomic.Value    // func(pt string)
+	scratch   map[string]*int // per-group memory written WITHOUT synchronisation by the callbacks (race-detector runs)
 	shutdowns int32
 }
 
@@ -161,6 +171,9 @@ func (r *runner) body(c int, g string, nested bool) {
 		}
 		defer atomic.AddInt32(v.(*int32), -1)
 	}
+	if p := r.scratch[g]; p != nil {
+		*p = *p + c // unsynchronised on purpose: only mutual exclusion + happens-before of the group protect it
+	}
 	// a little work, sometimes yielding
 	switch c % 5 {
 	case 0:
@@ -184,7 +197,13 @@ func (r *runner) submit(g string) {
 	r.s.WithGroup(g, func(*res.Service) { r.body(c, g, nested) })
 }
 
-func (r *runner) sendRequest(inCh chan *nats.Msg, g string) (ok bool) {
+func (r *runner) sendRequest(cn *conn, inCh chan *nats.Msg, g string) (ok bool) {
+	// like nats.go, deliver nothing once the connection is closed (Close happens before close(inCh))
+	cn.sendMu.RLock()
+	defer cn.sendMu.RUnlock()
+	if cn.isClosed() {
+		return false
+	}
 	defer func() {
 		if recover() != nil { // send on closed channel: service closed the in-channel
 			ok = false
@@ -309,6 +328,23 @@ func (r *runner) run() bool {
 		c.mu.Unlock()
 		served := make(chan error, 1)
 		r.rec.add("cycle-begin", "", sc.Workers)
+		var startupWG sync.WaitGroup
+		stopStartup := make(chan struct{})
+		if sc.Kind == "d6" {
+			for p := 0; p < 3; p++ {
+				r.safeGo(&startupWG, "ResetAll during start-up", func() {
+					for {
+						select {
+						case <-stopStartup:
+							return
+						default:
+						}
+						s.ResetAll()
+						runtime.Gosched()
+					}
+				})
+			}
+		}
 		go func() { served <- s.Serve(c) }()
 		// wait for started
 		for i := 0; i < 2000; i++ {
@@ -342,7 +378,7 @@ func (r *runner) run() bool {
 			if sc.Requests > 0 {
 				r.safeGo(&wg, "request sender", func() {
 					for k := 0; k < sc.Requests; k++ {
-						if !r.sendRequest(inCh, sc.Groups[(k*5+int(sc.Seed))%len(sc.Groups)]) {
+						if !r.sendRequest(c, inCh, sc.Groups[(k*5+int(sc.Seed))%len(sc.Groups)]) {
 							return
 						}
 					}
@@ -367,6 +403,15 @@ func (r *runner) run() bool {
 					ok = r.shutdown(s)
 				}
 			}
+		case "d6": // publishers call ResetAll while Serve is starting up (default ownership is computed then)
+			time.Sleep(2 * time.Millisecond)
+			close(stopStartup)
+			startupWG.Wait()
+			for k := 0; k < 3; k++ {
+				r.submit(sc.Groups[k%len(sc.Groups)])
+			}
+			r.settle(2 * time.Second)
+			ok = r.shutdown(s)
 		case "d1": // producer passes the started-check, then close() sets the queue to nil, then the producer enqueues
 			blocked := make(chan struct{})
 			release := make(chan struct{})
@@ -568,6 +613,15 @@ func (c *conv) insertBeforeLast(beforeKind, kind, term string) bool {
 	return false
 }
 
+// earlyStart: a started-check that passed while the "serve-started" note is not yet logged means the
+// atomic store of stateStarted has already happened (the note is logged after the store).
+func (c *conv) earlyStart() {
+	if c.svc == "starting" {
+		c.emit("servestarted", "LServeStarted")
+		c.svc = "started"
+	}
+}
+
 func (c *conv) gnum(g string) int {
 	if g == "" {
 		return 0
@@ -633,9 +687,12 @@ func (c *conv) convert(log []entry) error {
 			c.cleared = false
 			c.svc = "starting"
 		case "serve-started":
-			c.emit("servestarted", "LServeStarted")
-			c.svc = "started"
+			if c.svc != "started" { // otherwise already emitted early, see earlyStart
+				c.emit("servestarted", "LServeStarted")
+				c.svc = "started"
+			}
 		case "gate:runwith-checked":
+			c.earlyStart()
 			sub, ok := c.popSub(e.gid)
 			if !ok {
 				return fmt.Errorf("log %d: runWith invocation without a recorded submission", i)
@@ -732,6 +789,7 @@ func (c *conv) convert(log []entry) error {
 			c.emit("stopped", "LStopped")
 			c.svc = "stopped"
 		case "gate:publish-checked":
+			c.earlyStart()
 			c.nextP++
 			c.pub[e.gid] = c.nextP
 			t := fmt.Sprintf("LPubCheck %d%%N true", c.nextP)
@@ -766,7 +824,12 @@ func (c *conv) convert(log []entry) error {
 }
 
 func runScenario(sc scenario) (Case, []ImplViolation, bool) {
-	r := &runner{sc: sc, rec: &recorder{}, rng: NewRng(sc.Seed)}
+	r := &runner{sc: sc, rec: &recorder{}, rng: NewRng(sc.Seed), scratch: map[string]*int{}}
+	for _, g := range sc.Groups {
+		if g != "" {
+			r.scratch[g] = new(int)
+		}
+	}
 	alive := r.run()
 	verifhook.SetNote(nil)
 	verifhook.SetGate(nil)
@@ -848,7 +911,7 @@ func main() {
 			nd = 60
 		}
 		for i := 0; i < nd; i++ {
-			for _, k := range []string{"d1", "d2", "d3", "d4", "d5"} {
+			for _, k := range []string{"d1", "d2", "d3", "d4", "d5", "d6"} {
 				sc := scenario{Kind: k, Workers: []int{1, 2, 32}[rng.Intn(3)], InCh: 1024, Groups: groupSets[rng.Intn(3)],
 					Cycles: 1 + rng.Intn(2), Shutdown: "after", Seed: rng.Next() % 1000000}
 				scs = append(scs, sc)
@@ -869,9 +932,13 @@ func main() {
 			break
 		}
 	}
-	hdr := "From stdpp Require Import gmap.\nFrom Coq Require Import NArith.\nFrom GoRes Require Import Run.Run_" + *prop + "."
+	runMod := *prop
+	if runMod == "C16" {
+		runMod = "C01" // race-detector mode: the traces are a by-product
+	}
+	hdr := "From stdpp Require Import gmap.\nFrom Coq Require Import NArith.\nFrom GoRes Require Import Run.Run_" + runMod + "."
 	Emit(o, *prop, hdr, "scase",
-		"real res.Service runs (worker counts 1/2/3/8/32, in-channel 1/2/1024, 1-6 producer goroutines using WithGroup incl. nested submissions from callbacks, requests through the in-channel incl. Parallel resources, publishers, 1-3 serve/shutdown cycles, shutdown after/during/none, seeded schedule perturbation at hook points) + directed gate schedules d1-d5 (enqueue after close-nil, publish after shutdown, append before re-lock, parked Signal, producers during parked close); one case = one run's label trace; non-trivial = a callback was appended to a live work item and >= 2 workers took work, or a directed schedule; distinct by trace",
+		"real res.Service runs (worker counts 1/2/3/8/32, in-channel 1/2/1024, 1-6 producer goroutines using WithGroup incl. nested submissions from callbacks, requests through the in-channel incl. Parallel resources, publishers, 1-3 serve/shutdown cycles, shutdown after/during/none, seeded schedule perturbation at hook points) + directed schedules d1-d6 (enqueue after close-nil, publish after shutdown, append before re-lock, parked Signal, producers during parked close, ResetAll during Serve start-up); one case = one run's label trace; non-trivial = a callback was appended to a live work item and >= 2 workers took work, or a directed schedule; distinct by trace",
 		cases, dist, nil, impl, 40)
 	if len(impl) > 0 {
 		fmt.Fprintln(os.Stderr, "impl violations:", len(impl))
